@@ -16,7 +16,7 @@ func init() {
 		Decided: "C19.a no function on the request path stores, map-updates, appends in place or copies into a shared object (Container, WebService, Route, CORS configuration, ...), a package-level variable or a variable captured from configuration-time code, unless the base is a request-local copy; " +
 			"C19.b NewRequest/NewResponse build fresh objects with fresh maps and no per-request object (Request, Response, FilterChain, their maps) is ever stored into a shared-type field or a global; C19.c selected routes are per-request copies; " +
 			"C19.d everything controlled by the trace flag only logs (no return, no store, nothing computed there is used afterwards); C19.e no result-affecting nondeterminism source on the request path (map iteration order, multi-way select, time, math/rand); " +
-			"C19.f the package-level configuration variables read on the request path are written only by configuration code.",
+			"C19.f the package-level configuration variables read on the request path are written only by configuration code. C19.g = C13.a (pooled objects are used exclusively between acquire and release).",
 		NotDecided:  "byte-equality of responses (a runtime comparison); races inside user callbacks; net/http's own state; caches inside the compressor providers (their content is unobservable given C13.b).",
 		Assumptions: []string{"objects of external types reached on the request path (http.Request, bytes.Buffer, http.Header of this request/response) are per request"},
 		Rules: []Rule{
